@@ -20,10 +20,13 @@ class LoopSpec:
     already iterated.  modifies: list of Store objects (or callables returning them) the body may write.
     """
 
-    def __init__(self, inv, modifies, name="inv"):
+    def __init__(self, inv, modifies, name="inv", ghost_step=None):
         self.inv = inv
         self.modifies = modifies
         self.name = name
+        # ghost_step(interp, env, x): update of ghost stores (e.g. a witness function for an existential in the invariant) after
+        # the body has run for the arbitrary element x, before the invariant is re-established
+        self.ghost_step = ghost_step
 
 
 class SymSeq:
@@ -310,6 +313,8 @@ class Interpreter(Interp):
             except _Break:
                 return  # real loop exit in the current state (no else clause)
             # (a return / raise propagates as a real loop exit)
+            if getattr(spec, "ghost_step", None) is not None:
+                spec.ghost_step(self, env, x)
             for i, f in enumerate(spec.inv(self, env, z3.Store(visited, x, z3.BoolVal(True)), members)):
                 eng.oblige(f"{lname}/preserved/{i}", f, kind="loop-preserved")
             raise PathEnd()
